@@ -2354,3 +2354,101 @@ func init() {
 		}),
 	)
 }
+
+func init() {
+	extend("C35", "R35f (added after a seeded change was missed): in the download protocol a mutex that a function locks is unlocked on every path out of that function (deferred or explicit) — an early return that keeps the task-wide mutex blocks every other per-height worker and the handler never finishes.",
+		rule("R35f", "every Lock is released on all paths out of the function", 1, func(r *Run) {
+			pkg := r.W.Pkg("system/p2p/dht/protocol/download")
+			if pkg == nil {
+				r.Unresolved("package download")
+				return
+			}
+			n := 0
+			for _, decl := range r.W.AllFuncs(pkg) {
+				if decl.Lit != nil {
+					continue
+				}
+				for _, f := range append([]*core.FuncInfo{decl}, decl.Closures()...) {
+					cs := map[string]bool{}
+					ast.Inspect(f.Body(), func(x ast.Node) bool {
+						if lit, ok := x.(*ast.FuncLit); ok && lit != f.Lit {
+							return false // nested literals are functions of their own
+						}
+						if call, ok := x.(*ast.CallExpr); ok {
+							if fn := core.Callee(f.Info(), call); fn != nil {
+								cs[core.ShortName(fn)] = true
+							}
+						}
+						return true
+					})
+					locks, unlocks := cs["sync.(*Mutex).Lock"], cs["sync.(*Mutex).Unlock"]
+					if !locks {
+						continue
+					}
+					if !unlocks && len(f.Body().List) == 1 {
+						if _, isIf := f.Body().List[0].(*ast.IfStmt); isIf {
+							why := "conditional lock helper (lockTasks): its counterpart closure unlocks; the pairing of the two helpers around each use is R35c"
+							label := f.Name + ": lock helper"
+							r.Exception(label, why)
+							r.OK(label, r.W.Pos(f.Node().Pos()), "frozen exception: "+why)
+							continue
+						}
+					}
+					n++
+					core.Paired{Fn: f.Name, Open: core.Names("sync.(*Mutex).Lock"), Close: core.Names("sync.(*Mutex).Unlock"), MinOpen: 1}.Check(r)
+				}
+			}
+			if n == 0 {
+				r.Fail("download: functions that lock a mutex", "system/p2p/dht/protocol/download/", "none found (anchor changed)")
+			}
+		}),
+	)
+	extend("C33", "R33e (added after a seeded change was missed): the block-header cache of the pub-sub validator — a plain map written by every block validation — is only touched with headerLock held (validations of several blocks run concurrently; an unsynchronised map access is a fatal runtime error that recover() cannot catch).",
+		rule("R33e", "validator header cache only under headerLock", 2, func(r *Run) {
+			core.LockGuard{Type: bcast + "validator", Mutex: "headerLock", Depth: 3, Min: 2,
+				Access: func(c *core.Ctx, sel *ast.SelectorExpr, parents []ast.Node) (bool, bool, string) {
+					if sel.Sel.Name != "blkHeaderCache" {
+						return false, false, ""
+					}
+					return true, true, "blkHeaderCache"
+				},
+				Exempt:       map[string]string{bcast + "newValidator": "constructor", bcast + "initValidator": "constructor"},
+				ExemptAccess: map[string]string{},
+			}.Check(r)
+		}),
+	)
+	extend("C32", "R32h-R32i (added after seeded changes were missed): a subscriber's resume point is persisted before the subscription is started (the runner reads it when it starts); in the size-capped payload builders a sequence whose data does not fit is never counted as handled — when the size test says 'too big' the loop stops before the handled-counter is advanced, whatever else is true.",
+		rule("R32h", "resume point persisted before the runner is started", 1, func(r *Run) {
+			core.NotAfter{Fn: pu2 + "addSubscriber", Early: []string{pu2 + "setLastPushSeq"}, Late: []string{pu2 + "persisAndStart"}, Name: "setLastPushSeq never runs after persisAndStart", Min: 1}.Check(r)
+			core.FailStops{Fn: pu2 + "addSubscriber", Callee: []string{pu2 + "setLastPushSeq"}, Fail: core.OErrNonNil, Idx: -1, Forbidden: core.OrSink(core.CallSink(pu2+"persisAndStart"), core.SuccessReturn(-1)), Min: 1, Name: "resume point could not be stored"}.Check(r)
+		}),
+		rule("R32i", "an entry that does not fit is not counted as handled", 2, func(r *Run) {
+			for _, fn := range []string{pu2 + "getTxReceipts", pu2 + "getEVMEvent"} {
+				f := r.W.Func(fn)
+				if f == nil {
+					r.Unresolved(fn)
+					continue
+				}
+				sum := func(c *core.Ctx, e ast.Expr) bool {
+					b, ok := ast.Unparen(e).(*ast.BinaryExpr)
+					return ok && b.Op == token.ADD && !core.Mentions("param:3")(c, b)
+				}
+				tooBig := core.AssumeRel(sum, token.GTR, core.IsObj("param:3"), core.True)
+				core.UnreachableUnder{Fn: fn, Spec: &core.FlowSpec{Assume: tooBig}, Sink: core.SinkPred{Label: "handled-counter++", Match: func(fl *core.Flow, n *core.GNode) bool {
+					inc, ok := n.Ast.(*ast.IncDecStmt)
+					if !ok || inc.Tok != token.INC || n.Block.Kind.String() == "ForPost" {
+						return false
+					}
+					id, ok := ast.Unparen(inc.X).(*ast.Ident)
+					if !ok {
+						return false
+					}
+					t := fl.C.Info.TypeOf(id)
+					return t != nil && t.String() == "int"
+				}}, Name: "the accumulated size plus this entry exceeds the cap", Min: 1}.Check(r)
+			}
+		}),
+	)
+}
+
+const pu2 = "blockchain.(*Push)."
